@@ -3,7 +3,9 @@ package main
 // C24 harness (cmd/broker/main.go): generated request SEQUENCES from principals with
 // arbitrary (incl. empty) permission sets through the REAL handler.Handle (package
 // main; in-memory metadata store + in-memory S3; ACL enforcement on), topic
-// auto-creation on and off, all 21 request kinds Handle accepts.
+// auto-creation on and off, all 21 request kinds Handle accepts; requests that can address a topic by ID (Fetch v13,
+// Metadata v12) are sent in both the name- and the ID-addressed form, and the ACL shapes
+// include wildcard-allow + specific-deny and default-allow + deny.
 // Implementation-side oracle, per request: for every item (topic / group / config
 // resource) whose required permission (the table in c24Required, written from the
 // property statement) the REAL authorizer denies to the principal:
@@ -53,6 +55,7 @@ type c24Req struct {
 	Principal string   `json:"principal"`
 	Names     []string `json:"names,omitempty"` // topics or groups
 	Res       []c24Res `json:"res,omitempty"`
+	ByID      bool     `json:"by_id,omitempty"` // Fetch v13 / Metadata v12: topics addressed by topic ID, name empty
 	Acks      int16    `json:"acks,omitempty"`
 	Ts        int64    `json:"ts,omitempty"`
 }
@@ -211,7 +214,13 @@ type c24Obs struct {
 }
 
 // c24Build builds the kmsg request; c24Decode extracts (item, code, data) in item order.
-func c24Build(r c24Req) (kmsg.Request, int16) {
+func c24Build(r c24Req, ids map[string][16]byte) (kmsg.Request, int16) {
+	idOf := func(n string) [16]byte {
+		if id, ok := ids[n]; ok {
+			return id
+		}
+		return metadata.TopicIDForName("unknown-" + n) // an ID the store does not know
+	}
 	switch r.Kind {
 	case "ApiVersions":
 		return kmsg.NewPtrApiVersionsRequest(), 0
@@ -223,6 +232,14 @@ func c24Build(r c24Req) (kmsg.Request, int16) {
 		return q, 1
 	case "Metadata":
 		q := kmsg.NewPtrMetadataRequest()
+		if r.ByID {
+			for _, n := range r.Names {
+				mt := kmsg.NewMetadataRequestTopic()
+				mt.TopicID = idOf(n)
+				q.Topics = append(q.Topics, mt)
+			}
+			return q, 12
+		}
 		for _, n := range r.Names {
 			mt := kmsg.NewMetadataRequestTopic()
 			mt.Topic = kmsg.StringPtr(n)
@@ -238,7 +255,14 @@ func c24Build(r c24Req) (kmsg.Request, int16) {
 	case "Fetch":
 		q := &kmsg.FetchRequest{MaxWaitMillis: 0, MaxBytes: 1 << 20}
 		for _, n := range r.Names {
-			q.Topics = append(q.Topics, kmsg.FetchRequestTopic{Topic: n, Partitions: []kmsg.FetchRequestTopicPartition{{Partition: 0, FetchOffset: 0, PartitionMaxBytes: 1 << 20}}})
+			ft := kmsg.FetchRequestTopic{Topic: n, Partitions: []kmsg.FetchRequestTopicPartition{{Partition: 0, FetchOffset: 0, PartitionMaxBytes: 1 << 20}}}
+			if r.ByID {
+				ft.Topic, ft.TopicID = "", idOf(n) // v13: the wire carries only the ID
+			}
+			q.Topics = append(q.Topics, ft)
+		}
+		if r.ByID {
+			return q, 13
 		}
 		return q, 11
 	case "JoinGroup":
@@ -328,10 +352,13 @@ func c24Build(r c24Req) (kmsg.Request, int16) {
 	return nil, 0
 }
 
-func c24Decode(t *testing.T, r c24Req, ver int16, payload []byte) []c24Obs {
+func c24Decode(t *testing.T, r c24Req, ver int16, payload []byte, names map[[16]byte]string) []c24Obs {
 	var out []c24Obs
 	switch r.Kind {
 	case "Metadata":
+		if r.ByID {
+			return nil // ID-addressed Metadata names nothing: no item needs a permission
+		}
 		resp := decodeKmsgResponse(t, ver, payload, kmsg.NewPtrMetadataResponse)
 		byName := map[string]int16{}
 		for _, tp := range resp.Topics {
@@ -359,9 +386,18 @@ func c24Decode(t *testing.T, r c24Req, ver int16, payload []byte) []c24Obs {
 	case "Fetch":
 		resp := decodeKmsgResponse(t, ver, payload, kmsg.NewPtrFetchResponse)
 		for _, tp := range resp.Topics {
-			if len(tp.Partitions) > 0 {
-				out = append(out, c24Obs{item: c24Item{0, tp.Topic}, code: tp.Partitions[0].ErrorCode, data: len(tp.Partitions[0].RecordBatches) > 0})
+			if len(tp.Partitions) == 0 {
+				continue
 			}
+			it := c24Item{0, tp.Topic}
+			if r.ByID { // the reply carries the ID; the item is the topic the ID resolves to
+				if n, ok := names[tp.TopicID]; ok {
+					it = c24Item{0, n}
+				} else {
+					it = c24Item{-1, ""}
+				}
+			}
+			out = append(out, c24Obs{item: it, code: tp.Partitions[0].ErrorCode, data: len(tp.Partitions[0].RecordBatches) > 0})
 		}
 	case "JoinGroup":
 		out = append(out, c24Obs{item: c24Item{0, r.Names[0]}, code: decodeKmsgResponse(t, ver, payload, kmsg.NewPtrJoinGroupResponse).ErrorCode})
@@ -445,6 +481,7 @@ func c24Authz(code int16) bool {
 }
 
 type c24Step struct {
+	known     map[string]bool // topics whose ID the store knew before the request (ID-addressed Fetch)
 	req       c24Req
 	principal string
 	existed   []string
@@ -480,7 +517,7 @@ func c24Run(t *testing.T, c c24Case) ([]c24Step, string, string, map[string]bool
 	saved := h.authorizer
 	h.authorizer = nil
 	for _, n := range []string{"orders", "t1"} {
-		q, ver := c24Build(c24Req{Kind: "Produce", Names: []string{n}, Acks: -1})
+		q, ver := c24Build(c24Req{Kind: "Produce", Names: []string{n}, Acks: -1}, nil)
 		cid := "setup"
 		if _, err := h.Handle(ctx, &protocol.RequestHeader{APIKey: q.Key(), APIVersion: ver, CorrelationID: 1, ClientID: &cid}, q); err != nil {
 			t.Fatalf("setup produce: %v", err)
@@ -490,14 +527,24 @@ func c24Run(t *testing.T, c c24Case) ([]c24Step, string, string, map[string]bool
 
 	var steps []c24Step
 	for i, r := range c.Reqs {
-		q, ver := c24Build(r)
+		ids := map[string][16]byte{}
+		idNames := map[[16]byte]string{}
+		if m0, err := mem.Metadata(ctx, nil); err == nil {
+			for _, tp := range m0.Topics {
+				ids[*tp.Topic], idNames[tp.TopicID] = tp.TopicID, *tp.Topic
+			}
+		}
+		q, ver := c24Build(r, ids)
 		if q == nil {
 			continue
 		}
 		cid := r.Principal
 		hdr := &protocol.RequestHeader{APIKey: q.Key(), APIVersion: ver, CorrelationID: int32(10 + i), ClientID: &cid}
 		principal := principalFromContext(ctx, hdr)
-		st := c24Step{req: r, principal: principal}
+		st := c24Step{req: r, principal: principal, known: map[string]bool{}}
+		for n := range ids {
+			st.known[n] = true
+		}
 		meta, _ := mem.Metadata(ctx, nil)
 		existed := map[string]bool{}
 		for _, tp := range meta.Topics {
@@ -519,7 +566,7 @@ func c24Run(t *testing.T, c c24Case) ([]c24Step, string, string, map[string]bool
 		}
 		if payload != nil {
 			st.replied = true
-			st.obs = c24Decode(t, r, ver, payload)
+			st.obs = c24Decode(t, r, ver, payload, idNames)
 		}
 		// ---- oracle
 		var items []c24Item
@@ -532,9 +579,19 @@ func c24Run(t *testing.T, c c24Case) ([]c24Step, string, string, map[string]bool
 			items = []c24Item{{0, "*"}}
 		case "Metadata":
 			for _, n := range r.Names {
-				if strings.TrimSpace(n) != "" {
+				if strings.TrimSpace(n) != "" && !r.ByID {
 					items = append(items, c24Item{0, n})
 				}
+			}
+		case "Fetch":
+			// the item is the RESOLVED topic: the name itself, or the topic the ID belongs to
+			for _, n := range r.Names {
+				if _, known := ids[n]; known || !r.ByID {
+					items = append(items, c24Item{0, n})
+				}
+			}
+			if r.ByID {
+				tags["fetch-by-id"] = true
 			}
 		case "ApiVersions", "FindCoordinator":
 		default:
@@ -648,10 +705,16 @@ func c24GenReq(r *vRand) c24Req {
 	switch q.Kind {
 	case "Metadata":
 		q.Names = pickTopics(0, 3, c24Topics)
+		if r.Chance(15) {
+			q.Names, q.ByID = pickTopics(1, 3, named), true
+		}
 	case "Produce":
 		q.Names = pickTopics(1, 3, named)
 		q.Acks = []int16{-1, 1, -1, 0}[r.Intn(4)]
-	case "Fetch", "OffsetForLeaderEpoch", "CreatePartitions", "CreateTopics", "DeleteTopics":
+	case "Fetch":
+		q.Names = pickTopics(1, 3, named)
+		q.ByID = r.Chance(45)
+	case "OffsetForLeaderEpoch", "CreatePartitions", "CreateTopics", "DeleteTopics":
 		q.Names = pickTopics(1, 3, named)
 	case "ListOffsets":
 		q.Names = pickTopics(1, 3, named)
@@ -683,6 +746,16 @@ func c24Gen(r *vRand) c24Case {
 			continue // not listed at all
 		}
 		p := c24Principal{Name: n, Allow: []c24Rule{}, Deny: []c24Rule{}}
+		if r.Chance(30) {
+			// deny-list shape: a wildcard (or no) allow plus a deny that depends on the concrete name
+			act := []string{"fetch", "produce", "*"}[r.Intn(3)]
+			if c.Default != "allow" || r.Bool() {
+				p.Allow = append(p.Allow, c24Rule{A: []string{act, "*"}[r.Intn(2)], R: []string{"topic", "*", ""}[r.Intn(3)], N: []string{"*", "", "t*"}[r.Intn(3)]})
+			}
+			p.Deny = append(p.Deny, c24Rule{A: act, R: "topic", N: []string{"orders", "t1", "o*", "sneaky"}[r.Intn(4)]})
+			c.Principals = append(c.Principals, p)
+			continue
+		}
 		for k := r.Range(0, 4); k > 0; k-- {
 			p.Allow = append(p.Allow, c24GenRule(r))
 		}
@@ -718,7 +791,24 @@ func c24CoqRules(rs []c24Rule) string {
 	return cqList(items)
 }
 
-func c24CoqReq(r c24Req) string {
+func c24CoqReq(r c24Req, known map[string]bool) string {
+	if r.Kind == "Fetch" {
+		items := make([]string, len(r.Names))
+		for i, n := range r.Names {
+			switch {
+			case !r.ByID:
+				items[i] = "ByName " + cqStr(n)
+			case known[n]:
+				items[i] = "ById (Some " + cqStr(n) + ")"
+			default:
+				items[i] = "ById None"
+			}
+		}
+		return "(RFetch " + cqList(items) + ")"
+	}
+	if r.Kind == "Metadata" && r.ByID {
+		return "(RMetadata [])"
+	}
 	res := func() string {
 		items := make([]string, len(r.Res))
 		for i, x := range r.Res {
@@ -748,7 +838,7 @@ func c24Coq(c c24Case, st c24Step) string {
 		obs[i] = fmt.Sprintf("((%d, %s), %s)", o.item.typ, cqStr(o.item.name), cqZ(int64(o.code)))
 	}
 	return fmt.Sprintf("mkD (mkConfig true %s %s) %s %s %s %s %s %s %s", cqStr(c.Default), cqList(es), cqStr(st.principal),
-		cqBool(c.AutoCreate), cqBool(c.AdminAPIs), c24Strs(st.existed), c24CoqReq(st.req), cqList(obs), cqBool(st.changed))
+		cqBool(c.AutoCreate), cqBool(c.AdminAPIs), c24Strs(st.existed), c24CoqReq(st.req, st.known), cqList(obs), cqBool(st.changed))
 }
 
 func TestVerifC24(t *testing.T) {
@@ -819,6 +909,14 @@ func TestVerifC24(t *testing.T) {
 			{Default: "allow", AutoCreate: true, AdminAPIs: false, Principals: []c24Principal{{Name: "p2", Allow: []c24Rule{}, Deny: []c24Rule{{"*", "*", "*"}}}},
 				Reqs: []c24Req{{Kind: "Metadata", Principal: "p2", Names: []string{"sneaky2"}}, {Kind: "CreateTopics", Principal: "ghost", Names: []string{"sneaky"}}, {Kind: "Metadata", Principal: "ghost", Names: []string{"sneaky2"}}, {Kind: "DeleteTopics", Principal: "p2", Names: []string{"orders"}}}},
 		}
+		// deny-list ACLs x ID-addressed requests: the decision must be taken on the RESOLVED name
+		// (Fetch v13 carries an empty name; "" matches a wildcard allow and no specific deny)
+		corpus = append(corpus,
+			c24Case{Default: "deny", AutoCreate: true, AdminAPIs: true, Principals: []c24Principal{{Name: "p1", Allow: []c24Rule{{"fetch", "topic", "*"}}, Deny: []c24Rule{{"fetch", "topic", "orders"}}}},
+				Reqs: []c24Req{{Kind: "Fetch", Principal: "p1", Names: []string{"orders", "t1"}, ByID: true}, {Kind: "Fetch", Principal: "p1", Names: []string{"orders", "t1"}}, {Kind: "Metadata", Principal: "p1", Names: []string{"orders", "sneaky"}, ByID: true}}},
+			c24Case{Default: "allow", AutoCreate: false, AdminAPIs: true, Principals: []c24Principal{{Name: "p2", Allow: []c24Rule{}, Deny: []c24Rule{{"*", "topic", "t1"}}}},
+				Reqs: []c24Req{{Kind: "Fetch", Principal: "p2", Names: []string{"t1"}, ByID: true}, {Kind: "Fetch", Principal: "p2", Names: []string{"sneaky", "orders"}, ByID: true}, {Kind: "Produce", Principal: "p2", Names: []string{"t1", "orders"}, Acks: -1}}},
+		)
 		for _, c := range corpus {
 			runOne(c)
 		}
